@@ -328,6 +328,15 @@ func c20Plan(thorough bool) *plan {
 			scs = append(scs, pairScenario(t.QName()+" long-then-short x "+t.QName(), []*rm.Value{mv, valenum.Distinct(t)}))
 		}
 	}
+	// a decode that FAILS midway (a message cut inside its last third) before the normal work of one thread: error
+	// paths that hand scratch space back twice, or leave it dirty, poison what the other thread uses afterwards
+	for _, t := range bind.Types {
+		w, err := rm.EncodeBytes(valenum.Long(t))
+		if err != nil || len(w) < 3 {
+			continue
+		}
+		scs = append(scs, failedDecodeScenario(t, w[:len(w)-1-len(w)/3]))
+	}
 	// a ring of cross-type pairs (each type with the next one, across protocol boundaries at the seams)
 	for i, t := range bind.Types {
 		u := bind.Types[(i+1)%len(bind.Types)]
@@ -435,6 +444,36 @@ func checksumScenario(alg string, threads int) *scenario {
 				want := int64(rm.Checksum(alg, inputs[i]))
 				if !okv[i] || got[i] != want {
 					return &finding{Kind: "result-differs-from-sequential", Detail: fmt.Sprintf("thread %d: %s over %x = %d (service found: %v), reference %d", i, alg, inputs[i], got[i], okv[i], want)}
+				}
+			}
+			return nil
+		}
+	}}
+}
+
+func failedDecodeScenario(t *rm.Type, cut []byte) *scenario {
+	vals := []*rm.Value{valenum.Distinct(t), valenum.Distinct(t)}
+	want := []*codecResult{runCodec(vals[0]), runCodec(vals[1])}
+	return &scenario{Name: t.QName() + " after-failed-decode x " + t.QName(), Setup: func() ([]func(), func(x *vrt.Exec) *finding) {
+		restoreGlobals()
+		got := make([]*codecResult, 2)
+		bodies := []func(){
+			func() {
+				func() {
+					defer func() { recover() }()
+					_ = bind.Decode(bind.New(t), bytes.NewBuffer(append([]byte{}, cut...)))
+				}()
+				got[0] = runCodec(vals[0])
+			},
+			func() { got[1] = runCodec(vals[1]) },
+		}
+		return bodies, func(x *vrt.Exec) *finding {
+			for i := range got {
+				if got[i] == nil {
+					return &finding{Kind: "thread-did-not-finish", Detail: fmt.Sprint("thread ", i)}
+				}
+				if d := sameResult(want[i], got[i]); d != "" {
+					return &finding{Kind: "result-differs-from-sequential", Detail: fmt.Sprintf("thread %d (%s): %s", i, t.QName(), d)}
 				}
 			}
 			return nil
